@@ -45,21 +45,23 @@ theorem allB_of_forall (p : Char → Bool) : ∀ (l : List Char), (∀ c ∈ l, 
 
 theorem isDigit_dot : isDigit '.' = false := by decide
 
-/-- **posit hex round trip**, for every width that is a multiple of 4 up to the 64 bits `parse` can extract
+/-- the number of hexits printed for widths ≥ 4 is ⌈n/4⌉. -/
+theorem positNrHexits_eq (n : Nat) : positNrHexits n = (n + 3) / 4 := by
+  unfold positNrHexits
+  rw [Nat.shiftRight_eq_div_pow]
+  split <;> omega
+
+/-- **posit hex round trip**, for EVERY width up to the 64 bits `parse` can extract (multiple of 4 or not)
     and every `es` that prints as one digit. -/
-theorem positRoundTrip_aligned (n es v : Nat) (h4 : 4 ∣ n) (hn0 : 0 < n) (hn : n ≤ 64) (hes : es ≤ 9)
+theorem positRoundTrip_le64 (n es v : Nat) (hn0 : 0 < n) (hn : n ≤ 64) (hes : es ≤ 9)
     (hv : v < 2 ^ n) : positRoundTrip n es v = some v := by
-  obtain ⟨m, rfl⟩ := h4
-  have hm : 1 ≤ m := by omega
-  have hm16 : m ≤ 16 := by omega
+  -- K = ⌈n/4⌉ hexits are printed, for the widths 1, 2, 3 (one hexit) as well
+  obtain ⟨K, hK⟩ : ∃ K, K = (n + 3) / 4 := ⟨_, rfl⟩
+  have hK1 : 1 ≤ K := by omega
+  have hKn : n ≤ 4 * K := by omega
   -- the text
-  have hvm : v % 2 ^ (4 * m) = v := Nat.mod_eq_of_lt hv
-  have hnr : positNrHexits (4 * m) = m + 1 := by
-    unfold positNrHexits
-    rw [Nat.shiftRight_eq_div_pow]
-    have : 4 * m % 4 = 0 := by omega
-    simp [this]
-  set H := (hexDigits v (m + 1)).map hexLowerChar with hH
+  have hvm : v % 2 ^ n = v := Nat.mod_eq_of_lt hv
+  set H := (hexDigits v K).map hexLowerChar with hH
   have hHhex : ∀ c ∈ H, isHexDigit c = true := by
     intro c hc
     obtain ⟨d, hd, rfl⟩ := List.mem_map.mp hc
@@ -72,28 +74,37 @@ theorem positRoundTrip_aligned (n es v : Nat) (h4 : 4 ∣ n) (hn0 : 0 < n) (hn :
     intro c hc
     obtain ⟨d, hd, rfl⟩ := List.mem_map.mp hc
     simpa using hexLowerChar_ne_p d (hexDigits_lt v _ d hd)
-  have htxt : positHexFormat (4 * m) es v
-      = natToDec (4 * m) ++ ('.' :: digitChar es :: 'x' :: ('0' :: 'x' :: (H ++ ['p']))) := by
+  have htxt : positHexFormat n es v
+      = natToDec n ++ ('.' :: digitChar es :: 'x' :: ('0' :: 'x' :: (H ++ ['p']))) := by
     unfold positHexFormat positToHex
-    have h123 : ¬ (4 * m = 1 ∨ 4 * m = 2 ∨ 4 * m = 3) := by omega
-    simp only [hvm, h123, if_false, hnr, natToDec_lt_ten es (by omega)]
-    simp [hH]
+    have hbody : (if n = 1 ∨ n = 2 ∨ n = 3 then [hexLowerChar v]
+        else (hexDigits v (positNrHexits n)).map hexLowerChar) = H := by
+      by_cases h123 : n = 1 ∨ n = 2 ∨ n = 3
+      · have hK' : K = 1 := by omega
+        have hv16 : v < 16 := by
+          have : (2 : Nat) ^ n ≤ 2 ^ 3 := Nat.pow_le_pow_right (by decide) (by omega)
+          omega
+        rw [if_pos h123, hH, hK']
+        simp [hexDigits, Nat.mod_eq_of_lt hv16]
+      · rw [if_neg h123, positNrHexits_eq, ← hK]
+    simp only [hvm, hbody, natToDec_lt_ten es (by omega)]
+    simp
   unfold positRoundTrip
   rw [htxt]
   -- the regular expression accepts it
-  have hND := natToDec_allDigit (4 * m)
-  have hgram : positGrammar (natToDec (4 * m) ++ ('.' :: digitChar es :: 'x' :: ('0' :: 'x' :: (H ++ ['p'])))) = true := by
+  have hND := natToDec_allDigit n
+  have hgram : positGrammar (natToDec n ++ ('.' :: digitChar es :: 'x' :: ('0' :: 'x' :: (H ++ ['p'])))) = true := by
     unfold positGrammar
-    have htw : (natToDec (4 * m) ++ ('.' :: digitChar es :: 'x' :: ('0' :: 'x' :: (H ++ ['p'])))).takeWhile isDigit = natToDec (4 * m) := by
+    have htw : (natToDec n ++ ('.' :: digitChar es :: 'x' :: ('0' :: 'x' :: (H ++ ['p'])))).takeWhile isDigit = natToDec n := by
       rw [List.takeWhile_append_of_pos hND]
       simp [List.takeWhile, isDigit_dot]
-    have hdw : (natToDec (4 * m) ++ ('.' :: digitChar es :: 'x' :: ('0' :: 'x' :: (H ++ ['p'])))).dropWhile isDigit
+    have hdw : (natToDec n ++ ('.' :: digitChar es :: 'x' :: ('0' :: 'x' :: (H ++ ['p'])))).dropWhile isDigit
         = '.' :: digitChar es :: 'x' :: ('0' :: 'x' :: (H ++ ['p'])) := by
       rw [List.dropWhile_append_of_pos hND]
       simp [List.dropWhile, isDigit_dot]
     simp only [htw, hdw]
-    have hne : (natToDec (4 * m)).isEmpty = false := by
-      cases h : natToDec (4 * m) with
+    have hne : (natToDec n).isEmpty = false := by
+      cases h : natToDec n with
       | nil => exact absurd h (natToDec_ne_nil _)
       | cons _ _ => rfl
     have hall : allB isWord ('0' :: 'x' :: (H ++ ['p'])) = true := by
@@ -111,13 +122,13 @@ theorem positRoundTrip_aligned (n es v : Nat) (h4 : 4 ∣ n) (hn0 : 0 < n) (hn :
   unfold positParse
   rw [if_pos hgram]
   -- the scanning loops recover the fields
-  have hnd : ∀ c ∈ natToDec (4 * m), (decide (c ≠ '.')) = true := by
+  have hnd : ∀ c ∈ natToDec n, (decide (c ≠ '.')) = true := by
     intro c hc
     have := hND c hc
     simp only [decide_eq_true_eq]
     intro h; subst h; simp [isDigit_dot] at this
-  have hfields : positFields (natToDec (4 * m) ++ ('.' :: digitChar es :: 'x' :: ('0' :: 'x' :: (H ++ ['p']))))
-      = (natToDec (4 * m), [digitChar es], '0' :: 'x' :: H) := by
+  have hfields : positFields (natToDec n ++ ('.' :: digitChar es :: 'x' :: ('0' :: 'x' :: (H ++ ['p']))))
+      = (natToDec n, [digitChar es], '0' :: 'x' :: H) := by
     unfold positFields
     rw [List.takeWhile_append_of_pos hnd, List.dropWhile_append_of_pos hnd]
     have hdx : ∀ d, d < 10 → (!(digitChar d == 'x') && !(digitChar d == 'X')) = true := by decide
@@ -128,20 +139,19 @@ theorem positRoundTrip_aligned (n es v : Nat) (h4 : 4 ∣ n) (hn0 : 0 < n) (hn :
   rw [hfields]
   simp only
   -- the two extractions
-  have hdec : decExtract32 (natToDec (4 * m)) = 4 * m := by
+  have hdec : decExtract32 (natToDec n) = n := by
     unfold decExtract32
     simp only [takeWhile_all _ _ hND, decStrVal_natToDec]
     split <;> omega
-  have hpow : v < 16 ^ (m + 1) := by
-    have : (2 : Nat) ^ (4 * m) = 16 ^ m := by rw [Nat.pow_mul]
-    rw [this] at hv
-    calc v < 16 ^ m := hv
-      _ ≤ 16 ^ (m + 1) := Nat.pow_le_pow_right (by decide) (by omega)
+  have hpow : v < 16 ^ K := by
+    have h1 : (2 : Nat) ^ n ≤ 2 ^ (4 * K) := Nat.pow_le_pow_right (by decide) hKn
+    have h2 : (2 : Nat) ^ (4 * K) = 16 ^ K := by rw [Nat.pow_mul]
+    omega
   have hv64 : v < 2 ^ 64 := lt_of_lt_of_le hv (Nat.pow_le_pow_right (by decide) hn)
   have hhex : hexExtract64 ('0' :: 'x' :: H) = v := by
     unfold hexExtract64
     simp only [true_or, if_true]
-    rw [takeWhile_all _ _ hHhex, hH, hexStrVal_hexDigits hexLowerChar hexVal_hexLowerChar v (m + 1) 0]
+    rw [takeWhile_all _ _ hHhex, hH, hexStrVal_hexDigits hexLowerChar hexVal_hexLowerChar v K 0]
     simp only [Nat.zero_mul, Nat.zero_add, Option.getD_some, Nat.mod_eq_of_lt hpow]
     split <;> omega
   rw [hdec, hhex]
